@@ -35,10 +35,11 @@ func configs(thorough bool) []Case {
 	}
 	out = append(out, dirs...)
 	// directories with a checkpoint file: a fresh database starts at the checkpoint (which creates the journal itself)
-	cps := []Case{{Shape: []int{1, 2, 1}, Mode: "none", Checkpoint: 2}, {Shape: []int{1, 2}, Mode: "file", Checkpoint: 2}}
+	cps := []Case{{Shape: []int{1, 2, 1}, Mode: "none", Checkpoint: 2}, {Shape: []int{1, 2}, Mode: "file", Checkpoint: 2},
+		{Shape: []int{1, 1, 2, 1, 1}, Mode: "none", Checkpoint: 3, Earlier: []int{1}}}
 	if thorough {
 		cps = append(cps, Case{Shape: []int{2, 3, 2}, Mode: "none", Checkpoint: 2}, Case{Shape: []int{1, 2, 1}, Mode: "file", Checkpoint: 2}, Case{Shape: []int{1, 2, 1}, Mode: "all", Checkpoint: 2},
-			Case{Shape: []int{3}, Mode: "none", Checkpoint: 1}, Case{Shape: []int{1, 1, 3}, Mode: "none", Checkpoint: 3}, Case{Shape: []int{2, 2, 2}, Mode: "none", Checkpoint: 1})
+			Case{Shape: []int{3}, Mode: "none", Checkpoint: 1}, Case{Shape: []int{1, 1, 2, 2, 1}, Mode: "none", Checkpoint: 4, Earlier: []int{1, 2}}, Case{Shape: []int{1, 2, 2, 2}, Mode: "file", Checkpoint: 3, Earlier: []int{2}}, Case{Shape: []int{1, 1, 3}, Mode: "none", Checkpoint: 3}, Case{Shape: []int{2, 2, 2}, Mode: "none", Checkpoint: 1})
 	}
 	return append(out, cps...)
 }
@@ -57,7 +58,7 @@ func TestCheck(t *testing.T) {
 		}
 		col.Class(cls)
 		if out.Crashed {
-			col.NonTrivial(fmt.Sprintf("%v|%s|%v|%d|%d", c.Shape, c.Mode, c.Directives, c.Checkpoint, c.K))
+			col.NonTrivial(fmt.Sprintf("%v|%s|%v|%d%v|%d", c.Shape, c.Mode, c.Directives, c.Checkpoint, c.Earlier, c.K))
 		}
 		col.Sample(cls, c)
 		return err
